@@ -65,6 +65,7 @@ func checkC16(c *core.Ctx) error {
 		checkEstimator(c, p, d, e)
 	}
 	checkCategoricalEstimator(c, p, d)
+	checkRescaleSurvives(c)
 	c.Analysed["closed_form_estimators"] = len(estTable) + 1
 	// ---- R3 the mixture EM step is the textbook E-step / M-step
 	c.Rule("C16.R3", "the mixture EM step, interpreted symbolically for two components: the returned likelihood is the data log-likelihood of the model of the iteration, the responsibilities are the component posteriors (times observation weight and multiplicity), the new weights are the normalised responsibility sums", 20)
@@ -695,4 +696,166 @@ func checkCategoricalEstimator(c *core.Ctx, p *packages.Package, d *declIndex) {
 		}
 	}
 	c.Check(nGood > 0, "C16.R1c", cons, "updateEstimate has a successful path", ue.Pos(), "no successful path")
+}
+
+// checkRescaleSurvives (C16.R1d): state that Estimate prepares for its observation jobs (the maximum log-weight
+// gamma_max by which NewObservation rescales every weight, so that extreme log-weights neither overflow nor underflow)
+// must still be in place when the jobs are submitted: a store `obj.F = ...` in Estimate has to reach a job submission
+// without an intervening call of a receiver method that assigns F again (Initialize resets gamma_max to 0). In real
+// arithmetic the rescaling cancels, so the stationarity rule R1 cannot see its loss; the estimate for weights beyond
+// the exponent range is then NaN instead of the weighted maximum-likelihood parameters.
+func checkRescaleSurvives(c *core.Ctx) {
+	c.Rule("C16.R1d", "a receiver field that Estimate sets up for its observation jobs (gamma_max) reaches the job submission without being reset by a receiver method called in between", 2)
+	n := 0
+	for _, rel := range []string{"statistics/scalarEstimator", "statistics/vectorEstimator", "statistics/matrixEstimator"} {
+		p := c.Pkg(rel)
+		if p == nil {
+			continue
+		}
+		info := p.TypesInfo
+		// fields assigned by each method of a type (direct assignments to the receiver)
+		assigns := func(fd *ast.FuncDecl) map[string]bool {
+			r := map[string]bool{}
+			if fd == nil || fd.Recv == nil || len(fd.Recv.List) == 0 || len(fd.Recv.List[0].Names) == 0 {
+				return r
+			}
+			recv := info.Defs[fd.Recv.List[0].Names[0]]
+			ast.Inspect(fd.Body, func(x ast.Node) bool {
+				if as, ok := x.(*ast.AssignStmt); ok {
+					for _, l := range as.Lhs {
+						if sel, ok := ast.Unparen(l).(*ast.SelectorExpr); ok {
+							if id, ok := ast.Unparen(sel.X).(*ast.Ident); ok && info.Uses[id] == recv {
+								r[sel.Sel.Name] = true
+							}
+						}
+					}
+				}
+				return true
+			})
+			return r
+		}
+		core.EachFunc(p, func(_ *ast.File, fd *ast.FuncDecl) {
+			if fd.Name.Name != "Estimate" || fd.Recv == nil || len(fd.Recv.List) == 0 || len(fd.Recv.List[0].Names) == 0 {
+				return
+			}
+			T := core.RecvTypeName(fd)
+			recv := info.Defs[fd.Recv.List[0].Names[0]]
+			cf := core.NewFuncCFG(fd.Body, info)
+			type site struct {
+				b   int32
+				idx int
+			}
+			// node classification
+			isJob := func(nd ast.Node) bool {
+				found := false
+				ast.Inspect(nd, func(x ast.Node) bool {
+					if _, isLit := x.(*ast.FuncLit); isLit {
+						return false
+					}
+					if ce, ok := x.(*ast.CallExpr); ok {
+						nm := calleeName(ce)
+						if nm == "AddRangeJob" || nm == "AddJob" {
+							found = true
+						}
+					}
+					return true
+				})
+				return found
+			}
+			kills := func(nd ast.Node, F string) bool {
+				k := false
+				ast.Inspect(nd, func(x ast.Node) bool {
+					if _, isLit := x.(*ast.FuncLit); isLit {
+						return false
+					}
+					ce, ok := x.(*ast.CallExpr)
+					if !ok {
+						return true
+					}
+					sel, ok := ast.Unparen(ce.Fun).(*ast.SelectorExpr)
+					if !ok {
+						return true
+					}
+					if id, ok := ast.Unparen(sel.X).(*ast.Ident); !ok || info.Uses[id] != recv {
+						return true
+					}
+					if assigns(findMethodDecl(p, T, sel.Sel.Name))[F] {
+						k = true
+					}
+					return true
+				})
+				return k
+			}
+			stores := map[string][]site{}
+			for _, b := range cf.G.Blocks {
+				for i, nd := range b.Nodes {
+					as, ok := nd.(*ast.AssignStmt)
+					if !ok {
+						continue
+					}
+					for _, l := range as.Lhs {
+						if sel, ok := ast.Unparen(l).(*ast.SelectorExpr); ok {
+							if id, ok := ast.Unparen(sel.X).(*ast.Ident); ok && info.Uses[id] == recv {
+								stores[sel.Sel.Name] = append(stores[sel.Sel.Name], site{b.Index, i})
+							}
+						}
+					}
+				}
+			}
+			var fields []string
+			for f := range stores {
+				fields = append(fields, f)
+			}
+			sortStringsC16(fields)
+			for _, F := range fields {
+				// only fields the observation step reads matter
+				no := findMethodDecl(p, T, "NewObservation")
+				reads := false
+				if no != nil {
+					ast.Inspect(no.Body, func(x ast.Node) bool {
+						if sel, ok := x.(*ast.SelectorExpr); ok && sel.Sel.Name == F {
+							reads = true
+						}
+						return true
+					})
+				}
+				if !reads {
+					continue
+				}
+				n++
+				reached := false
+				for _, st := range stores[F] {
+					seen := map[int32]bool{}
+					var walk func(b int32, from int) bool
+					walk = func(b int32, from int) bool {
+						blk := cf.G.Blocks[b]
+						for i := from; i < len(blk.Nodes); i++ {
+							if kills(blk.Nodes[i], F) {
+								return false
+							}
+							if isJob(blk.Nodes[i]) {
+								return true
+							}
+						}
+						for _, s := range blk.Succs {
+							if seen[s.Index] {
+								continue
+							}
+							seen[s.Index] = true
+							if walk(s.Index, 0) {
+								return true
+							}
+						}
+						return false
+					}
+					if walk(st.b, st.idx+1) {
+						reached = true
+					}
+				}
+				c.Check(reached, "C16.R1d", c.FuncName(p, fd), "value stored in "+F+" reaches the observation jobs", fd.Pos(),
+					"Estimate computes "+F+" (read by NewObservation) but every path from that store to the job submission calls a receiver method that assigns "+F+" again: the prepared value is lost before the observations are accumulated (weights are no longer rescaled, so extreme log-weights overflow or underflow to NaN estimates)")
+			}
+		})
+	}
+	c.Analysed["estimate_prepared_fields"] = n
 }
